@@ -1,7 +1,7 @@
 #!/usr/bin/env python3
 """Rebuild lean/registry.json: every `theorem` of lean/MsmVerif/Props/C<nn>.lean is an obligation of property C<nn>.
 The statement text is the theorem's docstring. (Helper lemmas live in Lemmas/ and are not obligations.)"""
-import json, os, re
+import json, os, re, sys
 HOME = os.path.dirname(os.path.dirname(os.path.abspath(__file__)))
 props = os.path.join(HOME, 'lean', 'MsmVerif', 'Props')
 reg = {}
@@ -14,10 +14,14 @@ for f in sorted(os.listdir(props)):
     src = open(os.path.join(props, f)).read()
     ns = re.search(r'^namespace\s+(\S+)', src, re.M).group(1)
     thms = []
+    sys.path.insert(0, os.path.join(HOME, 'harness'))
+    from core import strip_comments
+    real_names = set(re.findall(r'^theorem\s+(\S+)', strip_comments(src), re.M))
     for mm in re.finditer(r'(?:/--((?:(?!-/).)*)-/\s*)?(?:@\[[^\]]*\]\s*)?^theorem\s+(\S+)', src, re.S | re.M):
         doc = ' '.join((mm.group(1) or '').split())
         # keep only the docstring immediately preceding
-        thms.append({'name': ns + '.' + mm.group(2), 'statement': doc[-600:]})
+        if mm.group(2) in real_names:
+            thms.append({'name': ns + '.' + mm.group(2), 'statement': doc[-600:]})
     if pid in reg:
         reg[pid]['modules'].append('MsmVerif.Props.' + modname)
         reg[pid]['theorems'] += thms
